@@ -186,11 +186,16 @@ def apply_tamper(content, tamper, rng, table):
         # a file under the right name whose TEXT cannot be loaded at all: cut off in the middle, empty, not JSON, or
         # (an envelope) a payload that is not base64. Loading fails; nothing quietly steps over such a file.
         text = json.dumps(c)
-        kinds = ["cut", "empty", "not_json"] + (["payload_not_base64"] if "payload" in c else [])
+        kinds = ["cut", "empty", "not_json", "empty_object"] + (["payload_not_base64", "payload_type_other"] if "payload" in c else [])
         kind = rng.choice(kinds)
         if kind == "payload_not_base64":
             c["payload"] = c["payload"][:7] + "!" + c["payload"][7:]
             return c
+        if kind == "payload_type_other":      # an envelope around something that is not in-toto metadata
+            c["payloadType"] = "application/vnd.example+json"
+            return c
+        if kind == "empty_object":            # JSON, but neither of the two containers
+            return {}
         return {"cut": text[:len(text) // 2], "empty": "", "not_json": "{not json"}[kind]
     if tamper == "content":
         r = edit_payload_leaf(c, rng)
